@@ -175,3 +175,14 @@ Proof.
   split; [intros x Hx; cbn in Hx; destruct Hx as [<-|[]]; vm_compute; reflexivity|].
   split; [vm_compute; discriminate|]. split; [vm_compute; reflexivity|discriminate].
 Qed.
+
+(* 4b. The shortened-index-key laws also under the preorder contract (non-injective comparers). *)
+Theorem C15_isep_law_pre : forall c, comparer_pre_ok c -> forall p a b x,
+  isep c p a b = Some x -> icmp c a x = Lt /\ icmp c x b = Lt.
+Proof. intros c ok p. exact (pisep_law c ok p). Qed.
+Print Assumptions C15_isep_law_pre.
+
+Theorem C15_isucc_law_pre : forall c, comparer_pre_ok c -> forall p b x,
+  isucc c p b = Some x -> icmp c b x = Lt.
+Proof. intros c _ p. exact (pisucc_law c p). Qed.
+Print Assumptions C15_isucc_law_pre.
